@@ -1018,6 +1018,19 @@ def corpus() -> list[dict[str, Any]]:
         mk("http://{O}/obj", [dict(objp, head=[{"status": 200, "cl": "10", "ar": "none"}])], {"maxFetch": 100}),
         mk("http://{O}/obj", [dict(objp, range=[{"status": 200, "body": {"k": "object"}}])], {"parallelThreshold": 1}),
         mk("http://{O}/obj", [objp], {"parallelThreshold": 1, "maxFetch": n, "chunkSize": 1000}, validator=None),
+        # the probe under-reports the size while every 206 names the real complete length (known finding, fixed)
+        mk("http://{O}/obj", [dict(objp, head=[dict(head, cl=str(n - 1))])], {"parallelThreshold": 1}),
+        mk("http://{O}/obj", [dict(objp, head=[dict(head, cl=str(n // 2))])], {"parallelThreshold": 1, "chunkSize": 100}),
+        mk("http://{O}/obj", [dict(objp, head=[dict(head, cl="0")])], {"parallelThreshold": 0}),
+        mk(f"http://{{O}}/obj?X-Amz-Signature={S['sig']}&X-Amz-Credential={S['cred']}",
+           [dict(objp, range=[dict(rng_ok, cr={"auto": str(n - 7)}), rng_ok])], {"parallelThreshold": 1}, secrets=[S["sig"], S["cred"]]),
+        # ... and a consistent liar / an origin that names no complete length is indistinguishable from a shorter object
+        mk("http://{O}/obj", [dict(objp, head=[dict(head, cl=str(n - 1))], range=[dict(rng_ok, cr={"auto": str(n - 1)})])], {"parallelThreshold": 1}),
+        mk("http://{O}/obj", [dict(objp, head=[dict(head, cl=str(n - 1))], range=[dict(rng_ok, cr={"auto": "*"})])], {"parallelThreshold": 1}),
+        mk("http://{O}/obj", [dict(objp, head=[dict(head, cl=str(n - 1))], range=[{"status": 206, "body": {"k": "slice", "extra": 0, "short": 0}}])],
+           {"parallelThreshold": 1}),
+        # a 206 that serves a different range of the right length
+        mk("http://{O}/obj", [dict(objp, range=[dict(rng_ok, cr="bytes 1000-1023/1024")])], {"parallelThreshold": 1, "chunkSize": 24}),
     ]
     import copy
 
@@ -1202,6 +1215,53 @@ def check_pure(ctx: Any) -> None:
             ctx.mismatch(cid, m, impl, "_content_length_from_content_range: model vs implementation")
 
 
+def check_chunk_range(ctx: Any) -> None:
+    """`_content_range_mismatch` (the check added by the fix): K against the model, O against its one-line spec."""
+    from vgi_rpc.external_fetch import _content_range_mismatch
+
+    rng = ctx.rng
+    cases: list[tuple[str | None, int, int, int | None]] = []
+    for cr in [None, "", "bytes 0-9/100", "bytes 0-9/*", "bytes 0-9/101", "bytes 1-9/100", "bytes 0-8/100", " bytes  0-9/100 ", "bytes 0-9/100\n",
+               "bytes 0-9/ 100", "bytes 0-9/1e2", "bytes 00-09/0100", "bytes ٠-٩/١٠٠", "Bytes 0-9/100", "bytes */100", "bytes 0-9", "garbage",
+               "bytes 0-9/**", "bytes 0-9/*1", "bytes 0-9/" + "1" * 4301, "bytes " + "0" * 4301 + "-9/100", "bytes 0-9/100 x", "bytes=0-9/100"]:
+        for total in (100, None, 0):
+            cases.append((cr, 0, 9, total))
+    for _ in range(ctx.budget(300, 5000)):
+        s0, e0, t0 = rng.choice([0, 5, 10]), rng.choice([9, 10, 99]), rng.choice([100, 10, 0])
+        base = list(f"bytes {rng.choice([s0, s0 + 1])}-{rng.choice([e0, e0 - 1])}/{rng.choice([str(t0), str(t0 + 1), '*'])}")
+        for _ in range(rng.choice([0, 0, 1, 2])):
+            pos = rng.randrange(len(base) + 1)
+            ch = rng.choice(list("019 /-*\n\tbx\u0661\u00a0"))
+            if rng.random() < 0.5:
+                base.insert(pos, ch)
+            elif base:
+                base[min(pos, len(base) - 1)] = ch
+        cases.append(("".join(base), s0, e0, rng.choice([t0, None])))
+    reqs = []
+    for cr, a, b, t in cases:
+        args: dict[str, Any] = {"start": a, "stop": b}
+        if cr is not None:
+            args["s"] = s2j(cr)
+        if t is not None:
+            args["total"] = t
+        reqs.append(("C31.chunkRange", args))
+    res = ctx.driver.batch(reqs) if ctx.driver is not None else [None] * len(cases)
+    canon = re.compile(r"bytes (0|[1-9][0-9]*)-(0|[1-9][0-9]*)/(0|[1-9][0-9]*|\*)")
+    for (cr, a, b, t), m in zip(cases, res):
+        impl = _content_range_mismatch(cr, a, b, t) is not None
+        cid = {"kind": "chunk-range", "s": cr, "start": a, "stop": b, "total": t}
+        ctx.case(cid, nontrivial=cr is not None, tags=("k:chunk-range", "chunk-cr:reject" if impl else "chunk-cr:accept"))
+        mm = canon.fullmatch(cr) if cr is not None else None
+        if mm and len(cr or "") < 200:  # spec on canonical headers: reject iff it contradicts the request or the probed size
+            want = (int(mm.group(1)), int(mm.group(2))) != (a, b) or (mm.group(3) != "*" and t is not None and int(mm.group(3)) != t)
+            if impl != want:
+                ctx.fail(cid, "C31:chunk-content-range-check", f"_content_range_mismatch({cr!r},{a},{b},{t}) is {impl}, spec says {want}")
+        elif cr is None and impl:
+            ctx.fail(cid, "C31:chunk-content-range-check", "an absent Content-Range was rejected")
+        if m is not None and m != impl:
+            ctx.mismatch(cid, m, impl, "_content_range_mismatch: model vs implementation")
+
+
 # body readers against a fake aiohttp response (exact segment control)
 
 
@@ -1342,6 +1402,7 @@ def run(ctx: Any) -> None:
     try:
         check_redact(ctx, url_shapes(rng, ctx.budget(2000, 50000)))
         check_pure(ctx)
+        check_chunk_range(ctx)
         check_readers(ctx)
         for case in corpus():
             run_fetch_case(ctx, case, ("src:corpus",))
